@@ -929,10 +929,11 @@ Section AllEnds.
   Lemma suffix_left : forall m k sk ek s0 te, m = n - k -> k <= n ->
     left gp evs k sk ek s0 ->
     M nc d (rcat (flat_map (fun g => [jump_of (fst g); snd g]) (skipn k (snd c)))) ek te ->
-    exists sn en, left gp evs n sn en s0.
+    exists sn, left gp evs n sn te s0.
   Proof.
     induction m as [|m IH]; intros k sk ek s0 te Em Hk Hl Hm.
-    - assert (k = n) by lia. subst k. exists sk, ek. exact Hl.
+    - assert (k = n) by lia. subst k. exists sk.
+      unfold n in Hm. rewrite skipn_all in Hm. cbn [flat_map rcat] in Hm. inversion Hm; subst. exact Hl.
     - assert (Hkn : k < n) by lia.
       destruct (nth_error (snd c) k) as [[g r']|] eqn:Et; [|apply nth_error_None in Et; unfold n in Hkn; lia].
       rewrite (skipn_nth _ _ _ _ Et) in Hm. cbn [flat_map fst snd app] in Hm.
@@ -953,9 +954,9 @@ Section AllEnds.
     intros s te Hm. unfold join_chain in Hm. apply M_rcat_cons in Hm. destruct Hm as [e0 [Hh Hm]].
     assert (Hl0 : left gp evs 0 s e0 s).
     { cbn [left]. split; [|reflexivity]. apply (all_end_events_complete nc rs d 0 (fst c)); [reflexivity|exact Hh]. }
-    destruct (suffix_left (n - 0) 0 s e0 s te eq_refl ltac:(lia) Hl0 Hm) as [sn [en Hl]].
+    destruct (suffix_left (n - 0) 0 s e0 s te eq_refl ltac:(lia) Hl0 Hm) as [sn Hl].
     assert (Hin : In (N.of_nat s) (starts (run_chain pieces evs))).
-    { apply (run_chain_complete_starts pieces n gp greedy n_pos) with (s := sn) (e := en); try exact Hl.
+    { apply (run_chain_complete_starts pieces n gp greedy n_pos) with (s := sn) (e := te); try exact Hl.
       - apply (proj1 (pieces_of_chain_shape greedy c)).
       - intros p Hp. unfold pieces in Hp. rewrite pieces_of_chain_head in Hp. inversion Hp. reflexivity.
       - intros i p Hp. unfold pieces in Hp. rewrite pieces_of_chain_tail in Hp. unfold gp.
